@@ -103,6 +103,29 @@ def same_op_groupings(nterms, terms=CHAIN_TERMS, ops=("+", "*")):
     return out
 
 
+def deep_chains():
+    """five- and six-term same-operator groupings over tiny alphabets: nesting depth up to 5 for the chained
+    classifiers (a group nested three or more levels deep)"""
+    return same_op_groupings(5, ["x", "2x", "3"]) + same_op_groupings(6, ["x", "2"])
+
+
+def power_nests():
+    """implicit products, negations and powers nested in base and exponent positions (printer / parser
+    interplay needs variable exponents and depth 4)"""
+    atoms = ["2", "x", "2x", "-x", "x^y", "2x^y", "2x^2", "(x + 1)", "-2", "y"]
+    out = []
+    for a, b in itertools.product(atoms, atoms):
+        out.append(f"({a})^({b})")
+    for a, b, c in itertools.product(atoms, atoms[:8], atoms[:8]):
+        out.append(f"(({a})^({b}))^({c})")
+        out.append(f"({a})^(({b})^({c}))")
+    return out
+
+
+FOLD_MAGNITUDES = ["5000000001 / 2 + x", "x + 5000000001 / 2", "3 * 333333333.5 + x", "1000000001 * 0.5 + x", "x * (10000000001 / 4)",
+                   "x = 5000000001 / 2", "2x = 5000000001", "x + 1 = 1000000001 * 0.5", "7000000001 / 2 * x = 3"]
+
+
 def flat_chains(nterms, terms, ops=("+", "*")):
     """Unparenthesised chains a op b op c ... (natural association of the parser)."""
     out = []
@@ -193,7 +216,8 @@ def magnitude_texts_static():
     leaf position a printer treats differently.  Printed and re-parsed only - never handed to the rules
     (factor() of a 20-digit number loops for hours, which no property forbids)."""
     out = []
-    for d in DECIMALS + BIG_INTS:
+    long_digits = "1234567890" * 7 + "123"
+    for d in DECIMALS + BIG_INTS + [long_digits, "0." + "0" * 66 + "1"]:
         out += [d, f"{d}x", f"x + {d}", f"{d} + x", f"x - {d}", f"x * {d}", f"x / {d}", f"-{d}", f"{d}x^2 + 3", f"{d} * y + x",
                 f"({d} + x)^2", f"x = {d}", f"{d}x = 3", f"x^{d}", f"sgn({d})"]
     return out
@@ -204,6 +228,7 @@ def magnitude_texts_fold():
     out = []
     for a, b in itertools.product(DECIMALS[:6], DECIMALS[:6]):
         out += [f"{a} * {b} * x", f"{a} * {b}", f"x * ({a} / {b})", f"{a} - {b}", f"x^({a} * {b})"]
+    out += ["2^216 + x", "7^80 * x", "0.1^70 * x", "x * 0.1^30", "2^216 * 2^216", "x = 2^216"] + FOLD_MAGNITUDES
     out += ["3^40 * x", "x * 3^40", "2^60 * x", "(2^60 + 1) * x", "2^64 * x", "10^20 * x", "10^-5 * x", "x * 10^-5", "2^-20 * x",
             "7^30 * 7^30", "5!^12 * x", "25! * x", "(2^53 + 1) * x", "x^(2^53 + 1)", "x / 3^40", "x - 3^40 * y"]
     return out
